@@ -35,7 +35,7 @@ Inductive rm_spec (r : reg) (s : sm) (p : pph) (u : option upd) : reg * sm * out
 | rm_unknown : sm_peers s !! p = None ->
     rm_spec r s p u (invalid r (with_metrics s (inc_unknown (sm_metrics s))))
 | rm_bad pe : sm_peers s !! p = Some pe -> u = None -> rm_spec r s p u (invalid r s)
-| rm_last pe u' ps : sm_peers s !! p = Some pe -> u = Some u' -> sm_phase s = PDump -> is_Some (is_eor u') ->
+| rm_last pe u' ps : sm_peers s !! p = Some pe -> u = Some u' -> sm_phase s = PDump -> is_Some (eor_in PDump u') ->
     rm_spec r s p u (r, MkSm PUpd ps (set_state (set_gauges (sm_metrics s) ps) PUpd), OTransition)
 | rm_routes pe u' ps ps1 : sm_peers s !! p = Some pe -> u = Some u' ->
     rm_spec r s p u (r, MkSm (sm_phase s) ps (add_routes (set_gauges (set_gauges (sm_metrics s) ps1) ps) (n_ann u') (n_wd u')),
@@ -44,7 +44,7 @@ Lemma route_monitoring_spec r s p u : rm_spec r s p u (route_monitoring r s p u)
 Proof.
   unfold route_monitoring. destruct (sm_peers s !! p) as [pe|] eqn:E; [|apply rm_unknown; auto].
   destruct u as [u|]; [|eapply rm_bad; eauto]. cbv zeta.
-  destruct (is_eor u) as [f|] eqn:He.
+  destruct (eor_in (sm_phase s) u) as [f|] eqn:He.
   - destruct (all_pending_empty _) eqn:Ha.
     + destruct (sm_phase s) eqn:Ep; try (rewrite <- Ep; eapply rm_routes; eauto; fail).
       eapply rm_last; eauto.
@@ -209,8 +209,11 @@ Definition effect_spec (t : gmap pph N) (m : msg) : effect :=
   | _ => ENothing
   end.
 
-Lemma payloads_eor id u : is_Some (is_eor u) -> payloads_of id u = [].
-Proof. destruct u as [|af [|? ?] a wf [|? ?]]; cbn; intros [? ?]; congruence. Qed.
+Lemma payloads_eor id u : is_Some (eor_in PDump u) -> payloads_of id u = [].
+Proof.
+  destruct u as [|af [|? ?] a wf [|? ?]|lax c ff [|? ?] a [|? ?]]; cbn; intros [? ?]; try congruence;
+    rewrite ?orb_true_r in *; cbn in *; congruence.
+Qed.
 
 Lemma id_table_list s :
   map (fun kv : pph * peer => pe_id kv.2) (map_to_list (sm_peers s)) ≡ₚ map snd (map_to_list (id_table s)).
@@ -283,8 +286,8 @@ Qed.
 
 Lemma payloads_of_mui id u p : p ∈ payloads_of id u -> k_mui (p_key p) = id.
 Proof.
-  destruct u as [f|af ann a wf wd]; cbn; [intros H; inversion H|].
-  rewrite elem_of_app, !elem_of_list_fmap. intros [(x & -> & _)|(x & -> & _)]; reflexivity.
+  destruct u as [f|af ann a wf wd|lax c ff ann a wd]; cbn; [intros H; inversion H| |];
+  rewrite elem_of_app, !elem_of_list_fmap; intros [(x & -> & _)|(x & -> & _)]; reflexivity.
 Qed.
 
 (* a Peer Down withdraws exactly the id of that peer; Termination exactly the ids of the up peers *)
@@ -333,21 +336,34 @@ Definition anns_in (o : outcome) : N :=
 Definition wds_in (o : outcome) : N :=
   match o with OUpdate (UBulk ps) => N.of_nat (length (filter (fun p => p_active p = false) ps)) | _ => 0 end.
 
+Lemma counts_wd_ann (W A : list payload) :
+  Forall (fun p => p_active p = false) W -> Forall (fun p => p_active p = true) A ->
+  length (filter (fun p => p_active p = true) (W ++ A)) = length A /\
+  length (filter (fun p => p_active p = false) (W ++ A)) = length W.
+Proof.
+  intros HW HA. rewrite !filter_app, !app_length.
+  assert (E1 : filter (fun p => p_active p = true) W = []).
+  { clear HA. induction HW as [|x l Hx _ IH]; [reflexivity|]. rewrite filter_cons_False by (rewrite Hx; discriminate). exact IH. }
+  assert (E2 : filter (fun p => p_active p = false) W = W).
+  { clear HA E1. induction HW as [|x l Hx _ IH]; [reflexivity|]. rewrite filter_cons_True by exact Hx. f_equal. exact IH. }
+  assert (E3 : filter (fun p => p_active p = true) A = A).
+  { clear HW E1 E2. induction HA as [|x l Hx _ IH]; [reflexivity|]. rewrite filter_cons_True by exact Hx. f_equal. exact IH. }
+  assert (E4 : filter (fun p => p_active p = false) A = []).
+  { clear HW E1 E2 E3. induction HA as [|x l Hx _ IH]; [reflexivity|]. rewrite filter_cons_False by (rewrite Hx; discriminate). exact IH. }
+  rewrite E1, E2, E3, E4. cbn. lia.
+Qed.
+
 Lemma payloads_counts id u :
   N.of_nat (length (filter (fun p => p_active p = true) (payloads_of id u))) = n_ann u /\
   N.of_nat (length (filter (fun p => p_active p = false) (payloads_of id u))) = n_wd u.
 Proof.
-  destruct u as [f|af ann a wf wd]; cbn; [split; reflexivity|].
-  rewrite !filter_app, !app_length.
-  assert (H1 : forall l : list N, filter (fun p => p_active p = true) (map (fun p => MkPay (af, p, id) true a) l) = map (fun p => MkPay (af, p, id) true a) l).
-  { induction l as [|x l IH]; [reflexivity|]. cbn [map]. rewrite filter_cons_True by reflexivity. f_equal. exact IH. }
-  assert (H2 : forall l : list N, filter (fun p => p_active p = true) (map (fun p => MkPay (wf, p, id) false 0) l) = []).
-  { induction l as [|x l IH]; [reflexivity|]. cbn [map]. rewrite filter_cons_False by (cbn; discriminate). exact IH. }
-  assert (H3 : forall l : list N, filter (fun p => p_active p = false) (map (fun p => MkPay (af, p, id) true a) l) = []).
-  { induction l as [|x l IH]; [reflexivity|]. cbn [map]. rewrite filter_cons_False by (cbn; discriminate). exact IH. }
-  assert (H4 : forall l : list N, filter (fun p => p_active p = false) (map (fun p => MkPay (wf, p, id) false 0) l) = map (fun p => MkPay (wf, p, id) false 0) l).
-  { induction l as [|x l IH]; [reflexivity|]. cbn [map]. rewrite filter_cons_True by reflexivity. f_equal. exact IH. }
-  rewrite H1, H2, H3, H4, !map_length. cbn. split; lia.
+  destruct u as [f|af ann a wf wd|lax c ff ann a wd]; cbn [payloads_of n_ann n_wd]; [split; reflexivity| |].
+  - destruct (counts_wd_ann (map (fun p => MkPay (wf, p, id) false 0) wd) (map (fun p => MkPay (af, p, id) true a) ann)) as [-> ->];
+      [apply Forall_forall; intros x Hx; apply elem_of_list_fmap in Hx as (y & -> & _); reflexivity..|].
+    rewrite !map_length. auto.
+  - destruct (counts_wd_ann (map (fun fp : N * N => MkPay (fp.1, fp.2, id) false 0) wd) (map (fun fp : N * N => MkPay (fp.1, fp.2, id) true a) ann)) as [-> ->];
+      [apply Forall_forall; intros x Hx; apply elem_of_list_fmap in Hx as (y & -> & _); reflexivity..|].
+    rewrite !map_length. auto.
 Qed.
 
 Definition counters_step (s : sm) (st : reg * sm * outcome) : Prop :=
